@@ -282,11 +282,17 @@ func (m *Model) ResolveRef(n *Node, ref string) (*Node, string, error) {
 			}
 			m.loaded[fragless] = true
 			m.Loads = append(m.Loads, fragless)
-			rn, err := m.indexDoc(doc, ParseURI(fragless), fragless)
-			if err != nil {
-				return nil, "", dangling("document %q: %v", fragless, err)
+			if existing := m.nodes[doc]; existing != nil {
+				// the same document reached under another of its URIs (retrieval URI vs canonical $id)
+				m.byURI[fragless] = existing
+				res = existing
+			} else {
+				rn, err := m.indexDoc(doc, ParseURI(fragless), fragless)
+				if err != nil {
+					return nil, "", dangling("document %q: %v", fragless, err)
+				}
+				res = rn
 			}
-			res = rn
 		} else {
 			res = m.byURI[fragless]
 			if res == nil {
@@ -465,6 +471,23 @@ func (m *Model) ResolveEverything() error {
 			return nil
 		}
 	}
+}
+
+// NamedURIs returns the fragment-less absolute URIs that the references of all indexed
+// documents name (independent of the order in which documents were loaded or cached).
+func (m *Model) NamedURIs() map[string]bool {
+	out := map[string]bool{}
+	for _, n := range m.AllNodes() {
+		if n.V.K != jv.Obj {
+			continue
+		}
+		for _, kw := range []string{"$ref", "$dynamicRef"} {
+			if r := n.V.Get(kw); r != nil && r.K == jv.Str && r.S != "" {
+				out[Resolve(n.Base, ParseURI(r.S)).WithoutFragment().String()] = true
+			}
+		}
+	}
+	return out
 }
 
 // ---------------------------------------------------------------------------------------------
